@@ -295,6 +295,100 @@ def oracle_table(ctx, strings: Sequence[str]) -> None:
     shutil.rmtree(wsp.ws, ignore_errors=True)
 
 
+STRACE_DRIVER = r"""
+import os, sys
+ws, verif = sys.argv[1], sys.argv[2]
+sys.path.insert(0, verif)
+import logging
+logging.disable(logging.CRITICAL)
+from harness.lib import pathaudit
+wsp = pathaudit.Workspace(ws, with_table=True)
+from datashard import load_table
+from datashard.storage_backend import LocalStorageBackend
+dfm = pathaudit.make_dfm(wsp.root)
+b = LocalStorageBackend(wsp.lnroot)
+def mark(n):
+    try: os.mkdir("/proc/C17-MARK-" + n)
+    except OSError: pass
+def call(f):
+    mark("BEGIN")                      # only the library's own system calls lie between BEGIN and END
+    try: f()
+    except Exception: pass
+    finally: mark("END")
+strings = ["data/f.parquet", "/data/f.parquet", "ln_in/f.parquet", "ln_out/secret.txt", "../tbl2/secret.txt", "ln_up/tbl2/secret.txt",
+           "ln_loop/../ln_out/secret.txt", "ln_loop/../data/ln_file", wsp.ws + "/out/data/f.parquet", wsp.ws + "/wh/tbl/data/f.parquet",
+           wsp.ws + "/wh/tbl/ln_loop/../ln_out/secret.txt", "new.parquet", "data/sub/new.parquet", "", ".", "data/.."]
+for p in strings:
+    for name, fn in list(pathaudit.dfm_entry_points().items()) + list(pathaudit.storage_entry_points().items()):
+        call(lambda: fn(dfm if name in pathaudit.dfm_entry_points() else b, p))
+for what in ("manifest_entry", "manifest_entry_nochecksum"):
+    for p in ("ln_out/data/f.parquet", "ln_loop/../ln_out/data/f.parquet", wsp.ws + "/out/data/f.parquet"):
+        wsp.rebuild_root()
+        pathaudit.tamper(wsp.root, what, p)
+        call(lambda: load_table(wsp.root).scan())
+wsp.rebuild_root()
+call(lambda: load_table(wsp.root).scan())
+call(lambda: load_table(wsp.lnroot).garbage_collect(grace_period_ms=0))
+"""
+
+
+def oracle_strace(ctx) -> None:
+    """System-call level cross-check (strace -f) of the pyarrow-backed and storage entry points: the audit hook does
+    not see opens made by pyarrow's C++ code; strace does.  Every SUCCESSFUL file syscall between the markers whose
+    kernel location lies in the workspace must lie under the table root."""
+    import re
+    import subprocess
+    if shutil.which("strace") is None:
+        ctx.stats["strace"] = "not available"
+        return
+    ws = os.path.join(os.path.realpath(ctx.scratch), "ws-strace")
+    out = os.path.join(ctx.scratch, "strace.out")
+    drv = os.path.join(ctx.scratch, "strace_driver.py")
+    with open(drv, "w") as f:
+        f.write(STRACE_DRIVER)
+    calls = "open,openat,creat,unlink,unlinkat,rename,renameat,renameat2,mkdir,mkdirat,rmdir,getdents64,symlink,symlinkat,link,linkat,truncate"
+    p = subprocess.run(["strace", "-f", "-qq", "-e", "trace=" + calls, "-o", out, os.sys.executable, drv, ws, coqbuild.VERIF],
+                       capture_output=True, text=True, timeout=600)
+    if not os.path.exists(out):
+        ctx.stats["strace"] = f"failed: {p.stderr[-300:]}"
+        return
+    lines = open(out, errors="replace").read().splitlines()
+    if not any("C17-MARK-BEGIN" in ln for ln in lines):
+        ctx.proof_problems.append("strace cross-check: markers not found (driver failed: " + p.stderr[-300:] + ")")
+        return
+    root = os.path.join(ws, "wh", pathfs.ROOT_NAME)
+    n = 0
+    inside_call = False
+    for ln in lines:
+        if "C17-MARK-BEGIN" in ln:
+            inside_call = True
+            continue
+        if "C17-MARK-END" in ln:
+            inside_call = False
+            continue
+        if not inside_call:
+            continue
+        m = re.search(r"\)\s+= (-?\d+)", ln)
+        if not m or int(m.group(1)) < 0:
+            continue
+        call = ln.split("(", 1)[0].split()[-1]
+        nofollow = call in ("unlink", "unlinkat", "rename", "renameat", "renameat2", "mkdir", "mkdirat", "rmdir", "symlink", "symlinkat", "link", "linkat")
+        for q in re.findall(r'"((?:[^"\\]|\\.)*)"', ln):
+            if not q.startswith("/"):
+                continue
+            n += 1
+            loc = pathfs.kernel_target(q, follow=not nofollow)
+            if loc is None or not pathfs.under(ws, loc) or pathfs.under(root, loc):
+                continue
+            if call in ("open", "openat") and os.path.isdir(loc) and "O_DIRECTORY" not in ln:
+                continue                      # a directory opened as a file: EISDIR or fsync handle, nothing read or listed
+            ctx.violation(f"strace:{call}", f"system call {ln.strip()[:200]} reached {loc}, outside the table root {root}",
+                          {"rule": "strace", "line": ln.strip()[:400], "kernel_location": loc})
+    ctx.count(n)
+    ctx.stats["strace_paths_checked"] = n
+    shutil.rmtree(ws, ignore_errors=True)
+
+
 # ------------------------------------------------------------------------------------------ correspondence
 def res_loc(codes: Codes, path: str) -> C:
     if path.startswith("//") and not path.startswith("///"):
@@ -358,7 +452,9 @@ def corr_paths(ctx, strings: Sequence[str]) -> None:
             os.chdir(cwd)
             b = LocalStorageBackend(base)
             dfm = pathaudit.make_dfm(base)
-            subset = strings if bi < 2 else strings[:: 7]
+            # thorough: the depth-4 grammar is exhaustive for the direct root; the other spellings take every k-th string
+            big = len(strings) > 10000
+            subset = strings if bi == 0 else (strings[:: 3] if big else strings) if bi == 1 else strings[:: 23 if big else 7]
             cwd_c = coq_list(codes.loc(cwd))
             base_c = coq_list(codes.pstr(base))
             for p in subset:
@@ -510,12 +606,13 @@ def run(ctx) -> None:
 
     quick = ctx.tier == "quick"
     ws_probe = os.path.realpath(ctx.scratch)
-    audit_strings = strings_for(ctx, os.path.join(ws_probe, "ws-storage"), 3 if quick else 4, 250 if quick else 6000)
+    audit_strings = strings_for(ctx, os.path.join(ws_probe, "ws-storage"), 3 if quick else 4, 250 if quick else 3500)
     obs_ws, obs = oracle_storage(ctx, audit_strings)
     table_strings = strings_for(ctx, os.path.join(ws_probe, "ws-table"), 3, 0 if quick else 600)
     if quick:
         table_strings = table_strings[::3]
     oracle_table(ctx, table_strings)
+    oracle_strace(ctx)
     ctx.stats["audit_strings_storage"] = len(audit_strings)
     ctx.stats["audit_strings_table"] = len(table_strings)
 
